@@ -33,6 +33,7 @@ import (
 	"github.com/postalsys/muti-metroo/internal/crypto"
 	"github.com/postalsys/muti-metroo/internal/protocol"
 	"github.com/postalsys/muti-metroo/internal/vmc"
+	"github.com/postalsys/muti-metroo/internal/vmc/sched"
 	"github.com/postalsys/muti-metroo/internal/vmc/vnet"
 )
 
@@ -44,10 +45,14 @@ type c04Case struct {
 
 const c04Marker = "S3CR3T-PLAINTEXT-MARK-"
 
+// c04ICMPExit, when set, gives the exit a real icmp.Handler (its socket is the vicmp fake).
+var c04ICMPExit bool
+
 func c04Build(transits int, udpSink string) (*nsNet, error) {
 	n := 2 + transits
 	nt, err := nsNew(n, func(i int, cfg *config.Config) {
 		if i == n-1 {
+			cfg.ICMP.Enabled = c04ICMPExit
 			cfg.Exit.Enabled = true
 			cfg.Exit.Routes = []string{"0.0.0.0/0"}
 			cfg.Forward.Endpoints = []config.ForwardEndpoint{{Key: "svc", Target: "10.8.0.1:7100"}}
@@ -385,6 +390,7 @@ func relaySizesC04(t *relayTable) (int, int) {
 }
 
 func TestVerif_C04(t *testing.T) {
+	sched.StrictIdentity = true // agents' background goroutines run rewritten code beside the controlled executions
 	r := vmc.New("C04", "exploration")
 	r.Rule = "grid {1,2 transits} x kind {tcp, forward, udp, udp with a key-zeroing transit} x payload sizes (1, 17, 16356, 16357, 40000; thorough adds boundary neighbours) through the real ingress, transit(s) and exit; every frame on every link captured; non-trivial = cases in which data-bearing frames crossed a transit (distinct by topology, kind, frame count)"
 	var rp c04Case
